@@ -55,7 +55,7 @@ class Job:
     def __init__(self, name, entry, objs, enforce=None, replace=(), loop_contracts=False,
                  cbmc_args=(), unwind=None, timeout=300, mem_gb=8, level="proof",
                  functions=(), note="", known=None, bound_note="", safety=True,
-                 expect_fail=("reach",), object_bits=None):
+                 expect_fail=("reach",), object_bits=None, optional=False):
         self.name = name
         self.entry = entry
         self.objs = list(objs)
@@ -74,6 +74,7 @@ class Job:
         self.safety = safety
         self.expect_fail = tuple(expect_fail)
         self.object_bits = object_bits
+        self.optional = optional      # attempt only: a timeout is reported but does not affect the exit status
         self.mode = "D(dfcc)" if enforce else "H(harness assume/assert)"
 
 
